@@ -1175,7 +1175,9 @@ func (d *DotGit) readReferenceFrom(rd io.Reader, name string) (ref *plumbing.Ref
 // truncates the file.
 func (d *DotGit) checkReferenceAndTruncate(f billy.File, old *plumbing.Reference) error {
 	if old == nil {
-		return nil
+		// Unconditional update: nothing to compare, but the previous
+		// value (possibly longer than the new one) still has to go.
+		return f.Truncate(0)
 	}
 
 	ref, err := d.readReferenceFrom(f, old.Name().String())
